@@ -147,6 +147,47 @@ def static(cx, fe, info):
     cx.oblige(st, 'only_the_two_writers_open_files_for_writing', z3.BoolVal(
         writers == ['write', 'write_shell_update']), kind='effect',
         detail=str(writers))
+    # nothing but the two writers renames, removes, copies or creates files:
+    # in particular resuming never "repairs" the checkpoint from a leftover
+    # temporary file
+    MUTATORS = {'replace', 'rename', 'remove', 'unlink', 'rmdir', 'move',
+                'copy', 'copy2', 'copyfile', 'copytree', 'rmtree', 'mkstemp',
+                'mkdtemp', 'NamedTemporaryFile', 'TemporaryFile', 'touch',
+                'write_bytes', 'write_text', 'truncate', 'symlink', 'link',
+                'open', 'makedirs', 'mkdir'}
+    PATH_ONLY = {'unlink', 'touch', 'write_bytes', 'write_text', 'rmdir',
+                 'symlink_to', 'hardlink_to', 'rename'}
+    others = []
+    for mod, msrc in fe.module_src.items():
+        mtree = ast.parse(msrc)
+        for fn in ast.walk(mtree):
+            if not isinstance(fn, ast.FunctionDef):
+                continue
+            if mod == 'nautilus.sampler' and fn.name in (
+                    'write', 'write_shell_update'):
+                continue
+            for n in ast.walk(fn):
+                if not isinstance(n, ast.Call):
+                    continue
+                f = n.func
+                hit = False
+                if isinstance(f, ast.Name):
+                    hit = f.id in MUTATORS - {'open'}
+                    if f.id == 'open':
+                        mode = ast.unparse(n.args[1]) if len(n.args) > 1 \
+                            else "'r'"
+                        hit = any(c in mode for c in 'wax+')
+                elif isinstance(f, ast.Attribute):
+                    base = ast.unparse(f.value)
+                    if base in ('os', 'shutil', 'tempfile', 'os.path'):
+                        hit = f.attr in MUTATORS
+                    else:       # pathlib.Path methods
+                        hit = f.attr in PATH_ONLY
+                if hit:
+                    others.append('{}.{}: {}'.format(
+                        mod.split('.')[-1], fn.name, ast.unparse(f)))
+    cx.oblige(st, 'only_the_two_writers_touch_the_file_system', z3.BoolVal(
+        not others), kind='effect', detail=str(others))
     cx.prefix = ''
 
 
